@@ -361,6 +361,106 @@ Proof.
     eapply lexes_app; [|exact Hl2]. unfold f0 in Hl1. rewrite <- app_assoc in Hl1. exact Hl1.
 Qed.
 
+(* ---- the content of a raw-text element ---------------------------------------------------------------------------------- *)
+(* no "</" inside the content *)
+Definition no_lt_slash (content : list Z) : Prop :=
+  forall k, peekz content k = Some 60 -> peekz content (k + 1) <> Some 47.
+
+Lemma lexes_rawtext d l pre content ename erest h :
+  at_input d l pre (content ++ 60 :: 47 :: ename ++ erest) -> intag l = false -> rawtag l = h ->
+  is_raw_hash h = true -> is_xml_hash h = false -> h <> html_hash_Plaintext -> h <> html_hash_Script ->
+  content <> [] -> no_lt_slash content ->
+  Forall (fun c => is_letter c = true) ename -> to_hash (map lower ename) = Ok h ->
+  (exists c r, erest = c :: r /\ is_letter c = false) ->
+  exists l', lexes d l pre content (60 :: 47 :: ename ++ erest) [mkObs TextT content content []] l' /\
+             intag l' = false /\ rawtag l' = 0.
+Proof.
+  intros Hat Hit Hraw Hrh Hxh Hnp Hns Hne Hnls Hlet Hhash (ce & re & Ee & Hce).
+  pose proof Hat as (Hi & Hcl & Hd & Hp). pose proof Hi as (Hl & Hlen & Hsuf & _).
+  destruct (at_input_buflen _ _ _ _ Hat) as [Hbl Hpre0].
+  pose proof (len_nonneg content). pose proof (len_nonneg ename). pose proof (len_nonneg erest).
+  assert (Hcpos : 0 < len content) by (destruct content; [congruence|rewrite len_cons; pose proof (len_nonneg content); lia]).
+  assert (Hh0 : h <> 0).
+  { intros ->. unfold is_raw_hash in Hrh. vm_compute in Hrh. discriminate. }
+  set (m := len pre + len content).
+  set (s := content ++ 60 :: 47 :: ename ++ erest) in *.
+  assert (Hlens : len s = len content + 2 + len ename + len erest) by (unfold s; rewrite len_app, !len_cons, len_app; lia).
+  (* bytes of d ++ [0] at and after pre *)
+  assert (Hpk : forall k, 0 <= k < len s -> peekz (d ++ [0]) (len pre + k) = peekz s k).
+  { intros k Hk. rewrite Hd, <- app_assoc. rewrite peekz_app_rk by lia. apply peekz_app_l. lia. }
+  (* (1) the end tag of the element stands at m *)
+  assert (Hm : end_tag_at h (d ++ [0]) m).
+  { unfold end_tag_at, m. 
+    split; [rewrite Hpk by lia; unfold s; rewrite peekz_app_r0; apply peekz_cons_0|].
+    split; [replace (len pre + len content + 1) with (len pre + (len content + 1)) by lia; rewrite Hpk by lia; unfold s; rewrite peekz_app_rk by lia; apply peekz_1|].
+    exists (len ename). split; [lia|]. split; [|split].
+    - intros i Hir. set (j := i - len pre - len content - 2).
+      replace i with (len pre + (len content + (j + 1 + 1))) by (unfold j; lia).
+      rewrite Hpk by (unfold j; lia). unfold s. rewrite peekz_app_rk by (unfold j; lia).
+      rewrite !peekz_cons_succ by (unfold j; lia).
+      destruct (peekz_in ename j ltac:(unfold j; lia)) as (c & Hc & Hin).
+      rewrite peekz_app_l by (unfold j; lia). exists c. split; [exact Hc|]. rewrite Forall_forall in Hlet. apply Hlet, Hin.
+    - exists ce. split; [|exact Hce].
+      replace (len pre + len content + 2 + len ename) with (len pre + (len content + (len ename + 1 + 1))) by lia.
+      rewrite Hpk by (rewrite Hlens, Ee, len_cons; pose proof (len_nonneg re); lia). unfold s. rewrite peekz_app_rk by lia.
+      rewrite !peekz_cons_succ by lia.
+      rewrite peekz_app_r0, Ee. apply peekz_cons_0.
+    - rewrite <- Hhash. f_equal. f_equal.
+      replace (len pre + len content + 2) with (len pre + (len content + 2)) by lia.
+      replace (len pre + (len content + 2) + len ename) with (len pre + (len content + 2 + len ename)) by lia.
+      rewrite Hd, <- app_assoc. 
+      assert (Hsl : slice (pre ++ s ++ [0]) (len pre + (len content + 2)) (len pre + (len content + 2 + len ename)) = slice s (len content + 2) (len content + 2 + len ename)).
+      { apply peekz_ext. intros i. destruct (Z.lt_ge_cases i 0) as [Hn|Hn]; [rewrite !peekz_neg by lia; reflexivity|].
+        destruct (Z.lt_ge_cases i (len ename)) as [Hlt|Hge].
+        - rewrite !peekz_slice by lia. replace (len pre + (len content + 2) + i) with (len pre + (len content + 2 + i)) by lia.
+          rewrite peekz_app_rk by lia. apply peekz_app_l. lia.
+        - assert (N1 : peekz (slice (pre ++ s ++ [0]) (len pre + (len content + 2)) (len pre + (len content + 2 + len ename))) i = None)
+            by (apply peekz_none_iff; rewrite len_slice by (rewrite ?len_app; change (len [0]) with 1; lia); lia).
+          assert (N2 : peekz (slice s (len content + 2) (len content + 2 + len ename)) i = None)
+            by (apply peekz_none_iff; rewrite len_slice by lia; lia).
+          congruence. }
+      rewrite Hsl. unfold s.
+      replace (content ++ 60 :: 47 :: ename ++ erest) with ((content ++ [60; 47]) ++ ename ++ erest) by (rewrite <- app_assoc; reflexivity).
+      replace (len content + 2) with (len (content ++ [60; 47])) by (rewrite len_app; reflexivity).
+      apply slice_mid. }
+  (* (2) no end tag inside the content *)
+  assert (Hnone : forall p, len pre <= p < m -> ~ end_tag_at h (d ++ [0]) p).
+  { intros p Hpr (P0 & P1 & _). unfold m in Hpr.
+    replace p with (len pre + (p - len pre)) in P0 by lia. rewrite Hpk in P0 by lia.
+    replace (p + 1) with (len pre + (p - len pre + 1)) in P1 by lia. rewrite Hpk in P1 by lia.
+    unfold s in P0, P1. rewrite peekz_app_l in P0 by lia.
+    destruct (Z.eq_dec (p - len pre + 1) (len content)) as [E|E].
+    - rewrite E, peekz_app_r0, peekz_cons_0 in P1. discriminate.
+    - rewrite peekz_app_l in P1 by lia. exact (Hnls _ P0 P1). }
+  (* the call *)
+  destruct (html_total_step_proof no_tmpl d l cfg_ok_no_tmpl Hi) as (ty & tk & l' & Hn & Hi').
+  destruct (html_rawtext_proof no_tmpl d l ty tk l' cfg_ok_no_tmpl Hi Hit ltac:(rewrite Hraw; exact Hh0) Hn) as (e & He & Htok & Hend & Hmin).
+  rewrite Hraw in *. rewrite Hp in *.
+  assert (Hlend : len d = len pre + len s) by (rewrite Hd, len_app; reflexivity).
+  assert (Hem : e = m).
+  { destruct (Z.lt_trichotomy e m) as [Hlt|[?|Hgt]]; [|assumption|].
+    - exfalso. destruct Hend as [->|[_ Hend]]; [unfold m in Hlt; lia|]. apply (Hnone e); [lia|exact Hend].
+    - exfalso. apply (Hmin eq_refl Hns Hnp m); [unfold m in *; lia|exact Hm]. }
+  subst e. destruct (Htok ltac:(unfold m; lia)) as (-> & -> & Htx & Hr' & Hit' & Hpos').
+  exists l'. split; [|tauto].
+  (* the buffer is unchanged *)
+  assert (Hbuf : lbuf (lz l') = lbuf (lz l)).
+  { pose proof (safe_eq _ _ _ (next_spec no_tmpl l cfg_ok_no_tmpl Hl) Hn) as Hs. cbn [step_post] in Hs.
+    destruct Hs as (_ & _ & (w & Hb & W1 & W2 & W3 & Wr) & _). unfold low_rule in Wr. cbn in Wr.
+    rewrite Hb. destruct w as [wo wn]. cbn [so sn] in *. subst wn. apply lower_view_empty. rewrite Hp in W1. lia. }
+  eapply (lexes_one d l pre content); [exact Hat|exact Hn|cbn [so sn]; unfold m; lia|].
+  cbn [observe]. rewrite Htx, Hbuf. cbn [opt_bytes]. change (TextT =? AttributeT) with false.
+  replace (m - len pre) with (len content) by (unfold m; lia).
+  rewrite (at_input_view0 d l pre _ (len content) Hat) by lia. unfold s. rewrite slice_first. reflexivity.
+Qed.
+
+(* ---- items' observations -----
+*)
+Definition tag_obs (name : list Z) (attrs : list attr) (void : bool) : list obs :=
+  mkObs StartTagT (60 :: map lower name) (map lower name) [] :: map attr_obs attrs ++
+  [mkObs (if void then StartTagVoidT else StartTagCloseT) (closer void) [] []].
+
+
 (* ---- items ------------------------------------------------------------------------------------------------------------------ *)
 Inductive item :=
 | IText (t : list Z)
@@ -368,7 +468,8 @@ Inductive item :=
 | ICdata (body : list Z)
 | IDoctype (x0 x1 x2 x3 x4 x5 x6 : Z) (after : list Z)
 | ITag (name : list Z) (attrs : list attr) (ws : list Z) (void : bool)
-| IEnd (name ws : list Z).
+| IEnd (name ws : list Z)
+| IRaw (name : list Z) (attrs : list attr) (ws content ename ews : list Z).   (* raw-text element with its content and end tag *)
 
 Definition item_bytes (i : item) : list Z :=
   match i with
@@ -378,6 +479,8 @@ Definition item_bytes (i : item) : list Z :=
   | IDoctype x0 x1 x2 x3 x4 x5 x6 after => 60 :: 33 :: [x0; x1; x2; x3; x4; x5; x6] ++ after ++ [62]
   | ITag name attrs ws void => 60 :: name ++ tag_rest attrs ws void
   | IEnd name ws => 60 :: 47 :: name ++ ws ++ [62]
+  | IRaw name attrs ws content ename ews =>
+      (60 :: name ++ tag_rest attrs ws false) ++ content ++ 60 :: 47 :: ename ++ ews ++ [62]
   end.
 
 (* exactly one token per construct (a tag: one per part), lower-cased names, verbatim values *)
@@ -391,6 +494,9 @@ Definition item_obs (i : item) : list obs :=
       mkObs StartTagT (60 :: map lower name) (map lower name) [] :: map attr_obs attrs ++
       [mkObs (if void then StartTagVoidT else StartTagCloseT) (closer void) [] []]
   | IEnd name ws => [mkObs EndTagT (map lower (item_bytes (IEnd name ws))) (map lower name) []]
+  | IRaw name attrs ws content ename ews =>
+      tag_obs name attrs false ++
+      [mkObs TextT content content []; mkObs EndTagT (map lower (60 :: 47 :: ename ++ ews ++ [62])) (map lower ename) []]
   end.
 
 Definition is_text (i : item) : bool := match i with IText _ => true | _ => false end.
@@ -409,6 +515,13 @@ Definition wf_item (i : item) : Prop :=
   | IEnd name ws =>
       (exists c nm, name = c :: nm /\ is_letter c = true) /\ Forall (fun c => c <> 62 /\ is_ws4 c = false) name /\
       Forall (fun c => is_ws4 c = true) ws
+  | IRaw name attrs ws content ename ews =>
+      (exists c nm, name = c :: nm /\ is_letter c = true) /\ Forall namechar name /\
+      (exists h, to_hash (map lower name) = Ok h /\ to_hash (map lower ename) = Ok h /\ is_raw_hash h = true /\
+                 is_xml_hash h = false /\ h <> html_hash_Plaintext /\ h <> html_hash_Script) /\   (* style title textarea xmp iframe *)
+      all_ws ws /\ wf_attrs attrs (ws ++ closer false) /\
+      content <> [] /\ no_lt_slash content /\
+      ename <> [] /\ Forall (fun c => is_letter c = true) ename /\ Forall (fun c => is_ws4 c = true) ews
   end.
 
 (* a document: well-formed items, no two texts in a row *)
@@ -428,9 +541,91 @@ Proof.
   repeat (apply orb_false_iff; split); assumption.
 Qed.
 
+(* a complete tag: "<" name attributes ws ">" or "/>" ; afterwards the raw-text mode is on iff the name is one of the seven *)
+Lemma lexes_tag d l pre name attrs ws void rest h :
+  at_input d l pre ((60 :: name ++ tag_rest attrs ws void) ++ rest) -> intag l = false -> rawtag l = 0 ->
+  (exists c nm, name = c :: nm /\ is_letter c = true) -> Forall namechar name ->
+  to_hash (map lower name) = Ok h -> is_xml_hash h = false -> all_ws ws -> wf_attrs attrs (ws ++ closer void) ->
+  exists l', lexes d l pre (60 :: name ++ tag_rest attrs ws void) rest (tag_obs name attrs void) l' /\
+             intag l' = false /\ rawtag l' = (if is_raw_hash h then h else 0).
+Proof.
+  intros Hat Hit Hraw Hn1 Hn2 Hh Hxml Hws Hattrs. destruct (at_input_buflen _ _ _ _ Hat) as [Hbl Hpre0].
+  pose proof (len_nonneg rest) as Hrest0. unfold tag_obs.
+  pose proof (len_nonneg name). pose proof (len_nonneg ws).
+  set (tail := ws ++ closer void) in *.
+  assert (Htail : tail <> []) by (unfold tail; intros E; apply app_eq_nil in E; destruct E as [_ E]; exact (closer_ne void E)).
+  assert (Hshape : forall attrs', wf_attrs attrs' tail -> tagrest_shape ((concat (map attr_bytes attrs') ++ tail) ++ rest)).
+  { intros attrs' Hw'. apply (tag_rest_shape attrs' ws void rest Hw' Hws). }
+  assert (Hat1 : at_input d l pre (60 :: name ++ tag_rest attrs ws void ++ rest)).
+  { cbn [app] in Hat. rewrite <- app_assoc in Hat. exact Hat. }
+  (* the start tag *)
+  destruct (next_starttag d l pre name (tag_rest attrs ws void ++ rest) h Hat1 Hit Hraw Hn1 Hn2
+              (shape_tag_stop _ (tag_rest_shape attrs ws void rest Hattrs Hws)) Hh Hxml)
+    as (l1 & Hnx & Htx & Hb & Hi1 & Hr1 & _).
+  assert (Hlex1 : lexes d l pre (60 :: name) (tag_rest attrs ws void ++ rest)
+                    [mkObs StartTagT (60 :: map lower name) (map lower name) []] l1).
+  { eapply lexes_one; [exact Hat1|exact Hnx|cbn [so sn]; rewrite len_cons; lia|].
+    assert (Hbl1 : len (lbuf (lz l)) = len pre + (1 + len name + len (tag_rest attrs ws void ++ rest)) + 1).
+    { destruct (at_input_buflen _ _ _ _ Hat1) as [E _]. rewrite E, len_cons, len_app. lia. }
+    pose proof (len_nonneg (tag_rest attrs ws void ++ rest)). pose proof (len_nonneg (tag_rest attrs ws void)).
+    cbn [observe]. rewrite Htx, Hb. cbn [opt_bytes]. change (StartTagT =? AttributeT) with false. f_equal.
+    - replace (mkSl (len pre + 1) (len name)) with (mkSl (len pre + 1) (1 + len name - 1)) by (f_equal; lia).
+      rewrite view_lower_middle by lia.
+      rewrite (at_input_view0 d l pre _ 1 Hat1) by (rewrite ?len_cons; pose proof (len_nonneg (name ++ tag_rest attrs ws void ++ rest)); lia).
+      replace (1 + len name - 1) with (len name) by lia.
+      rewrite (at_input_view d l pre _ 1 (len name) Hat1) by (rewrite ?len_cons, ?len_app; lia).
+      replace (1 + len name - (1 + len name)) with 0 by lia.
+      rewrite (at_input_view d l pre _ (1 + len name) 0 Hat1) by (rewrite ?len_cons, ?len_app; lia).
+      rewrite slice_zero_len, app_nil_r.
+      replace (slice (60 :: name ++ tag_rest attrs ws void ++ rest) 1 (1 + len name)) with name
+        by (symmetry; exact (slice_mid [60] name (tag_rest attrs ws void ++ rest))).
+      change (slice (60 :: name ++ tag_rest attrs ws void ++ rest) 0 1) with [60]. reflexivity.
+    - rewrite view_bytes_lower_view by (cbn [so sn]; lia).
+      rewrite (at_input_view d l pre _ 1 (len name) Hat1) by (rewrite ?len_cons, ?len_app; lia).
+      exact (f_equal (map lower) (slice_mid [60] name (tag_rest attrs ws void ++ rest))). }
+  assert (Hat2 : at_input d l1 (pre ++ 60 :: name) (concat (map attr_bytes attrs) ++ tail ++ rest)).
+  { destruct Hlex1 as (tr & _ & _ & _ & A). unfold tag_rest in A. fold tail in A. rewrite <- app_assoc in A. exact A. }
+  (* the attributes *)
+  destruct (lexes_attrs attrs d l1 (pre ++ 60 :: name) tail rest Hat2 Hi1 Hattrs Htail Hshape) as (l2 & Hlex2 & Hi2 & Hr2).
+  assert (Hat3 : at_input d l2 ((pre ++ 60 :: name) ++ concat (map attr_bytes attrs)) ((ws ++ closer void) ++ rest)).
+  { destruct Hlex2 as (tr & _ & _ & _ & A). exact A. }
+  (* '>' or '/>' *)
+  assert (Hlex3 : exists l3, lexes d l2 ((pre ++ 60 :: name) ++ concat (map attr_bytes attrs)) tail rest
+                     [mkObs (if void then StartTagVoidT else StartTagCloseT) (closer void) [] []] l3 /\
+                     intag l3 = false /\ rawtag l3 = rawtag l2).
+  { set (pre3 := (pre ++ 60 :: name) ++ concat (map attr_bytes attrs)) in *.
+    pose proof (len_nonneg pre3).
+    destruct void; cbn [closer] in *.
+    - assert (Hat3' : at_input d l2 pre3 (ws ++ 47 :: 62 :: rest)) by (rewrite <- app_assoc in Hat3; exact Hat3).
+      destruct (next_void d l2 pre3 ws rest Hat3' Hi2 Hws) as (l3 & Hn3 & Ht3 & Hb3 & Hi3 & Hr3 & _).
+      exists l3. split; [|tauto].
+      eapply lexes_one; [exact Hat3|exact Hn3|cbn [so sn]; unfold tail; rewrite len_app; change (len [47; 62]) with 2; lia|].
+      cbn [observe]. rewrite Ht3, Hb3. cbn [opt_bytes]. change (StartTagVoidT =? AttributeT) with false. f_equal.
+      rewrite (at_input_view d l2 pre3 _ (len ws) 2 Hat3') by (rewrite ?len_app, ?len_cons; lia).
+      apply (slice_mid ws [47; 62] rest).
+    - assert (Hat3' : at_input d l2 pre3 (ws ++ 62 :: rest)) by (rewrite <- app_assoc in Hat3; exact Hat3).
+      destruct (next_close d l2 pre3 ws rest Hat3' Hi2 Hws) as (l3 & Hn3 & Ht3 & Hb3 & Hi3 & Hr3 & _).
+      exists l3. split; [|tauto].
+      eapply lexes_one; [exact Hat3|exact Hn3|cbn [so sn]; unfold tail; rewrite len_app; change (len [62]) with 1; lia|].
+      cbn [observe]. rewrite Ht3, Hb3. cbn [opt_bytes]. change (StartTagCloseT =? AttributeT) with false. f_equal.
+      rewrite (at_input_view d l2 pre3 _ (len ws) 1 Hat3') by (rewrite ?len_app, ?len_cons; lia).
+      apply (slice_mid ws [62] rest). }
+  destruct Hlex3 as (l3 & Hlex3 & Hi3 & Hr3).
+  exists l3. split; [|split; [exact Hi3|congruence]].
+  unfold tag_rest. fold tail.
+  change (60 :: name ++ concat (map attr_bytes attrs) ++ tail) with ((60 :: name) ++ concat (map attr_bytes attrs) ++ tail).
+  change (mkObs StartTagT (60 :: map lower name) (map lower name) [] :: map attr_obs attrs ++
+          [mkObs (if void then StartTagVoidT else StartTagCloseT) (closer void) [] []])
+    with ([mkObs StartTagT (60 :: map lower name) (map lower name) []] ++ map attr_obs attrs ++
+          [mkObs (if void then StartTagVoidT else StartTagCloseT) (closer void) [] []]).
+  eapply lexes_app.
+  + unfold tag_rest in Hlex1. fold tail in Hlex1. rewrite <- app_assoc in Hlex1. rewrite <- app_assoc. exact Hlex1.
+  + eapply lexes_app; [exact Hlex2|exact Hlex3].
+Qed.
+
 Lemma nontext_tag_start i rest : wf_item i -> is_text i = false -> tag_start (item_bytes i ++ rest).
 Proof.
-  intros Hwf Ht. destruct i as [t|b|b|x0 x1 x2 x3 x4 x5 x6 after|name attrs ws void|name ws]; cbn [is_text] in Ht; try discriminate;
+  intros Hwf Ht. destruct i as [t|b|b|x0 x1 x2 x3 x4 x5 x6 after|name attrs ws void|name ws|name attrs ws content ename ews]; cbn [is_text] in Ht; try discriminate;
     cbn [item_bytes app wf_item] in *.
   - eexists _, _. split; [reflexivity|tauto].
   - eexists _, _. split; [reflexivity|tauto].
@@ -438,6 +633,7 @@ Proof.
   - destruct Hwf as ((c & nm & -> & Hl) & _). cbn [app]. eexists _, _. split; [reflexivity|tauto].
   - destruct Hwf as ((c & nm & -> & Hl) & _). cbn [app]. eexists _, _. split; [reflexivity|].
     right; right; right. split; [reflexivity|]. eexists _, _. split; [reflexivity|]. intros ->. discriminate.
+  - destruct Hwf as ((c & nm & -> & Hl) & _). cbn [app]. eexists _, _. split; [reflexivity|tauto].
 Qed.
 
 Lemma lexes_item i d l pre rest : at_input d l pre (item_bytes i ++ rest) -> intag l = false -> rawtag l = 0 ->
@@ -446,7 +642,7 @@ Lemma lexes_item i d l pre rest : at_input d l pre (item_bytes i ++ rest) -> int
 Proof.
   intros Hat Hit Hraw Hwf Hnext. destruct (at_input_buflen _ _ _ _ Hat) as [Hbl Hpre0].
   pose proof (len_nonneg rest) as Hrest0.
-  destruct i as [t|b|b|x0 x1 x2 x3 x4 x5 x6 after|name attrs ws void|name ws]; cbn [item_bytes item_obs wf_item is_text] in *.
+  destruct i as [t|b|b|x0 x1 x2 x3 x4 x5 x6 after|name attrs ws void|name ws|name attrs ws content ename ews]; cbn [item_bytes item_obs wf_item is_text] in *.
   - (* text *)
     destruct Hwf as [Hne Ht].
     destruct (next_text d l pre t rest Hat Hit Hraw Hne Ht (Hnext eq_refl)) as (l' & Hn & Htx & Hb & Hi' & Hr' & _).
@@ -490,77 +686,8 @@ Proof.
       apply (slice_mid [60; 33; x0; x1; x2; x3; x4; x5; x6] after (62 :: rest)).
   - (* tag *)
     destruct Hwf as (Hn1 & Hn2 & (h & Hh & Hrawh) & Hws & Hattrs).
-    pose proof (len_nonneg name). pose proof (len_nonneg ws).
-    set (tail := ws ++ closer void) in *.
-    assert (Htail : tail <> []) by (unfold tail; intros E; apply app_eq_nil in E; destruct E as [_ E]; exact (closer_ne void E)).
-    assert (Hshape : forall attrs', wf_attrs attrs' tail -> tagrest_shape ((concat (map attr_bytes attrs') ++ tail) ++ rest)).
-    { intros attrs' Hw'. apply (tag_rest_shape attrs' ws void rest Hw' Hws). }
-    assert (Hat1 : at_input d l pre (60 :: name ++ tag_rest attrs ws void ++ rest)).
-    { cbn [app] in Hat. rewrite <- app_assoc in Hat. exact Hat. }
-    (* the start tag *)
-    destruct (next_starttag d l pre name (tag_rest attrs ws void ++ rest) h Hat1 Hit Hraw Hn1 Hn2
-                (shape_tag_stop _ (tag_rest_shape attrs ws void rest Hattrs Hws)) Hh (is_raw_false_xml h Hrawh))
-      as (l1 & Hnx & Htx & Hb & Hi1 & Hr1 & _).
-    rewrite Hrawh in Hr1.
-    assert (Hlex1 : lexes d l pre (60 :: name) (tag_rest attrs ws void ++ rest)
-                      [mkObs StartTagT (60 :: map lower name) (map lower name) []] l1).
-    { eapply lexes_one; [exact Hat1|exact Hnx|cbn [so sn]; rewrite len_cons; lia|].
-      assert (Hbl1 : len (lbuf (lz l)) = len pre + (1 + len name + len (tag_rest attrs ws void ++ rest)) + 1).
-      { destruct (at_input_buflen _ _ _ _ Hat1) as [E _]. rewrite E, len_cons, len_app. lia. }
-      pose proof (len_nonneg (tag_rest attrs ws void ++ rest)). pose proof (len_nonneg (tag_rest attrs ws void)).
-      cbn [observe]. rewrite Htx, Hb. cbn [opt_bytes]. change (StartTagT =? AttributeT) with false. f_equal.
-      - replace (mkSl (len pre + 1) (len name)) with (mkSl (len pre + 1) (1 + len name - 1)) by (f_equal; lia).
-        rewrite view_lower_middle by lia.
-        rewrite (at_input_view0 d l pre _ 1 Hat1) by (rewrite ?len_cons; pose proof (len_nonneg (name ++ tag_rest attrs ws void ++ rest)); lia).
-        replace (1 + len name - 1) with (len name) by lia.
-        rewrite (at_input_view d l pre _ 1 (len name) Hat1) by (rewrite ?len_cons, ?len_app; lia).
-        replace (1 + len name - (1 + len name)) with 0 by lia.
-        rewrite (at_input_view d l pre _ (1 + len name) 0 Hat1) by (rewrite ?len_cons, ?len_app; lia).
-        rewrite slice_zero_len, app_nil_r.
-        replace (slice (60 :: name ++ tag_rest attrs ws void ++ rest) 1 (1 + len name)) with name
-          by (symmetry; exact (slice_mid [60] name (tag_rest attrs ws void ++ rest))).
-        change (slice (60 :: name ++ tag_rest attrs ws void ++ rest) 0 1) with [60]. reflexivity.
-      - rewrite view_bytes_lower_view by (cbn [so sn]; lia).
-        rewrite (at_input_view d l pre _ 1 (len name) Hat1) by (rewrite ?len_cons, ?len_app; lia).
-        exact (f_equal (map lower) (slice_mid [60] name (tag_rest attrs ws void ++ rest))). }
-    assert (Hat2 : at_input d l1 (pre ++ 60 :: name) (concat (map attr_bytes attrs) ++ tail ++ rest)).
-    { destruct Hlex1 as (tr & _ & _ & _ & A). unfold tag_rest in A. fold tail in A. rewrite <- app_assoc in A. exact A. }
-    (* the attributes *)
-    destruct (lexes_attrs attrs d l1 (pre ++ 60 :: name) tail rest Hat2 Hi1 Hattrs Htail Hshape) as (l2 & Hlex2 & Hi2 & Hr2).
-    assert (Hat3 : at_input d l2 ((pre ++ 60 :: name) ++ concat (map attr_bytes attrs)) ((ws ++ closer void) ++ rest)).
-    { destruct Hlex2 as (tr & _ & _ & _ & A). exact A. }
-    (* '>' or '/>' *)
-    assert (Hlex3 : exists l3, lexes d l2 ((pre ++ 60 :: name) ++ concat (map attr_bytes attrs)) tail rest
-                       [mkObs (if void then StartTagVoidT else StartTagCloseT) (closer void) [] []] l3 /\
-                       intag l3 = false /\ rawtag l3 = rawtag l2).
-    { set (pre3 := (pre ++ 60 :: name) ++ concat (map attr_bytes attrs)) in *.
-      pose proof (len_nonneg pre3).
-      destruct void; cbn [closer] in *.
-      - assert (Hat3' : at_input d l2 pre3 (ws ++ 47 :: 62 :: rest)) by (rewrite <- app_assoc in Hat3; exact Hat3).
-        destruct (next_void d l2 pre3 ws rest Hat3' Hi2 Hws) as (l3 & Hn3 & Ht3 & Hb3 & Hi3 & Hr3 & _).
-        exists l3. split; [|tauto].
-        eapply lexes_one; [exact Hat3|exact Hn3|cbn [so sn]; unfold tail; rewrite len_app; change (len [47; 62]) with 2; lia|].
-        cbn [observe]. rewrite Ht3, Hb3. cbn [opt_bytes]. change (StartTagVoidT =? AttributeT) with false. f_equal.
-        rewrite (at_input_view d l2 pre3 _ (len ws) 2 Hat3') by (rewrite ?len_app, ?len_cons; lia).
-        apply (slice_mid ws [47; 62] rest).
-      - assert (Hat3' : at_input d l2 pre3 (ws ++ 62 :: rest)) by (rewrite <- app_assoc in Hat3; exact Hat3).
-        destruct (next_close d l2 pre3 ws rest Hat3' Hi2 Hws) as (l3 & Hn3 & Ht3 & Hb3 & Hi3 & Hr3 & _).
-        exists l3. split; [|tauto].
-        eapply lexes_one; [exact Hat3|exact Hn3|cbn [so sn]; unfold tail; rewrite len_app; change (len [62]) with 1; lia|].
-        cbn [observe]. rewrite Ht3, Hb3. cbn [opt_bytes]. change (StartTagCloseT =? AttributeT) with false. f_equal.
-        rewrite (at_input_view d l2 pre3 _ (len ws) 1 Hat3') by (rewrite ?len_app, ?len_cons; lia).
-        apply (slice_mid ws [62] rest). }
-    destruct Hlex3 as (l3 & Hlex3 & Hi3 & Hr3).
-    exists l3. split; [|split; [exact Hi3|congruence]].
-    unfold tag_rest. fold tail.
-    change (60 :: name ++ concat (map attr_bytes attrs) ++ tail) with ((60 :: name) ++ concat (map attr_bytes attrs) ++ tail).
-    change (mkObs StartTagT (60 :: map lower name) (map lower name) [] :: map attr_obs attrs ++
-            [mkObs (if void then StartTagVoidT else StartTagCloseT) (closer void) [] []])
-      with ([mkObs StartTagT (60 :: map lower name) (map lower name) []] ++ map attr_obs attrs ++
-            [mkObs (if void then StartTagVoidT else StartTagCloseT) (closer void) [] []]).
-    eapply lexes_app.
-    + unfold tag_rest in Hlex1. fold tail in Hlex1. rewrite <- app_assoc in Hlex1. rewrite <- app_assoc. exact Hlex1.
-    + eapply lexes_app; [exact Hlex2|exact Hlex3].
+    destruct (lexes_tag d l pre name attrs ws void rest h Hat Hit Hraw Hn1 Hn2 Hh (is_raw_false_xml h Hrawh) Hws Hattrs) as (l' & Hl' & Hi' & Hr').
+    rewrite Hrawh in Hr'. exists l'. tauto.
   - (* end tag *)
     destruct Hwf as (Hn1 & Hn2 & Hws).
     assert (Hat' : at_input d l pre (60 :: 47 :: name ++ ws ++ 62 :: rest)).
@@ -575,6 +702,48 @@ Proof.
     + rewrite view_lower_inside by (cbn [so sn]; unfold inview; cbn [so sn]; rewrite ?len_app in Hbl; lia). f_equal.
       rewrite (at_input_view d l pre _ 2 (len name) Hat') by (rewrite ?len_cons, ?len_app, ?len_cons; lia).
       apply (slice_mid [60; 47] name (ws ++ 62 :: rest)).
+  - (* raw-text element: tag, content, end tag *)
+    destruct Hwf as (Hn1 & Hn2 & (h & Hh & Heh & Hrh & Hxh & Hnp & Hns) & Hws & Hattrs & Hcne & Hnls & Hene & Helet & Hews).
+    set (etag := 60 :: 47 :: ename ++ ews ++ [62]) in *.
+    assert (Hat1 : at_input d l pre ((60 :: name ++ tag_rest attrs ws false) ++ content ++ etag ++ rest)).
+    { rewrite <- (app_assoc (60 :: name ++ tag_rest attrs ws false)) in Hat. rewrite <- (app_assoc content etag rest) in Hat. exact Hat. }
+    destruct (lexes_tag d l pre name attrs ws false (content ++ etag ++ rest) h Hat1 Hit Hraw Hn1 Hn2 Hh Hxh Hws Hattrs) as (l1 & Hl1 & Hi1 & Hr1).
+    rewrite Hrh in Hr1.
+    assert (Hat2 : at_input d l1 (pre ++ 60 :: name ++ tag_rest attrs ws false) (content ++ 60 :: 47 :: ename ++ (ews ++ 62 :: rest))).
+    { destruct Hl1 as (tr & _ & _ & _ & A). unfold etag in A. cbn [app] in A. rewrite <- !app_assoc in A. exact A. }
+    assert (Herest : exists c r, ews ++ 62 :: rest = c :: r /\ is_letter c = false).
+    { destruct ews as [|w ews']; [exists 62, rest; split; reflexivity|]. exists w, (ews' ++ 62 :: rest). split; [reflexivity|].
+      inversion Hews as [|? ? Hw _]; subst. unfold is_ws4 in Hw. unfold is_letter.
+      repeat (apply orb_true_iff in Hw; destruct Hw as [Hw|Hw]); apply Z.eqb_eq in Hw; subst w; reflexivity. }
+    destruct (lexes_rawtext d l1 _ content ename (ews ++ 62 :: rest) h Hat2 Hi1 Hr1 Hrh Hxh Hnp Hns Hcne Hnls Helet Heh Herest)
+      as (l2 & Hl2 & Hi2 & Hr2).
+    assert (Hat3 : at_input d l2 ((pre ++ 60 :: name ++ tag_rest attrs ws false) ++ content) (60 :: 47 :: ename ++ ews ++ 62 :: rest)).
+    { destruct Hl2 as (tr & _ & _ & _ & A). exact A. }
+    assert (Hen1 : exists c nm, ename = c :: nm /\ is_letter c = true).
+    { destruct ename as [|c nm]; [congruence|]. exists c, nm. split; [reflexivity|]. inversion Helet; assumption. }
+    assert (Hen2 : Forall (fun c => c <> 62 /\ is_ws4 c = false) ename).
+    { eapply Forall_impl; [|exact Helet]. cbn beta. intros a Ha. pose proof (namechar_letter a Ha) as (Hw & H62 & _).
+      split; [exact H62|]. unfold is_ws, is_ws4 in *. apply orb_false_iff in Hw. destruct Hw as [Hw _]. exact Hw. }
+    set (pre3 := (pre ++ 60 :: name ++ tag_rest attrs ws false) ++ content) in *.
+    destruct (next_endtag d l2 pre3 ename ews rest Hat3 Hi2 Hr2 Hen1 Hen2 Hews) as (l3 & Hn3 & Htx3 & Hb3 & Hi3 & Hr3 & _).
+    pose proof (len_nonneg ename). pose proof (len_nonneg ews). pose proof (len_nonneg pre3).
+    assert (Hl3 : len etag = 3 + len ename + len ews) by (unfold etag; rewrite !len_cons, !len_app; change (len [62]) with 1; lia).
+    assert (Hat3' : at_input d l2 pre3 (etag ++ rest)).
+    { unfold etag. cbn [app]. rewrite <- !app_assoc. exact Hat3. }
+    assert (Hlex3 : lexes d l2 pre3 etag rest [mkObs EndTagT (map lower etag) (map lower ename) []] l3).
+    { destruct (at_input_buflen _ _ _ _ Hat3') as [Hbl3 _]. rewrite len_app in Hbl3.
+      eapply lexes_one; [exact Hat3'|exact Hn3|cbn [so sn]; lia|].
+      cbn [observe]. rewrite Htx3, Hb3. cbn [opt_bytes]. change (EndTagT =? AttributeT) with false. f_equal.
+      - rewrite view_bytes_lower_view by (cbn [so sn]; lia). f_equal.
+        rewrite (at_input_view0 d l2 pre3 _ _ Hat3') by (rewrite ?len_app; lia). rewrite <- Hl3. apply slice_first.
+      - rewrite view_lower_inside by (cbn [so sn]; unfold inview; cbn [so sn]; lia). f_equal.
+        rewrite (at_input_view d l2 pre3 _ 2 (len ename) Hat3) by (rewrite ?len_cons, ?len_app, ?len_cons; lia).
+        apply (slice_mid [60; 47] ename (ews ++ 62 :: rest)). }
+    exists l3. split; [|tauto].
+    change [mkObs TextT content content []; mkObs EndTagT (map lower etag) (map lower ename) []]
+      with ([mkObs TextT content content []] ++ [mkObs EndTagT (map lower etag) (map lower ename) []]).
+    eapply lexes_app; [rewrite <- (app_assoc content etag rest); exact Hl1|]. eapply lexes_app; [|exact Hlex3].
+    unfold etag. cbn [app]. rewrite <- ?app_assoc. cbn [app]. exact Hl2.
 Qed.
 
 (* ---- documents ------------------------------------------------------------------------------------------------------------- *)
@@ -615,14 +784,17 @@ Proof.
   unfold view_bytes, slice, firstz. replace (so t + sn t - so t) with 0 by lia. reflexivity.
 Qed.
 
-(* non-vacuity: <!DOCTYPE html><a B='c' d>x</A > *)
+(* non-vacuity: <!DOCTYPE html><a B='c' d>x</A ><STYLE>p<q</style > *)
 Example html_wellformed_nonvacuous :
   let doc := [ IDoctype 68 79 67 84 89 80 69 [32; 104; 116; 109; 108];
                ITag [97] [AVal [32] [66] [] [] [39; 99; 39]; ANone [32] [100]] [] false;
                IText [120];
-               IEnd [65] [32] ] in
-  wf_doc doc /\ doc_bytes doc = [60;33;68;79;67;84;89;80;69;32;104;116;109;108;62;60;97;32;66;61;39;99;39;32;100;62;120;60;47;65;32;62] /\
-  length (doc_obs doc) = 7%nat.
+               IEnd [65] [32];
+               IRaw [83; 84; 89; 76; 69] [] [] [112; 60; 113] [115; 116; 121; 108; 101] [32] ] in
+  wf_doc doc /\
+  doc_bytes doc = [60;33;68;79;67;84;89;80;69;32;104;116;109;108;62;60;97;32;66;61;39;99;39;32;100;62;120;60;47;65;32;62;
+                   60;83;84;89;76;69;62;112;60;113;60;47;115;116;121;108;101;32;62] /\
+  length (doc_obs doc) = 11%nat.
 Proof.
   split; [|split; reflexivity]. cbn [wf_doc wf_item is_text]. repeat split; try discriminate; try reflexivity.
   all: try (repeat constructor; unfold ci_eq; lia).
@@ -630,5 +802,9 @@ Proof.
   all: try (eexists _, _; split; reflexivity).
   all: try (repeat constructor; vm_compute; repeat split; reflexivity || discriminate || (intros; discriminate)).
   all: try (eexists; split; vm_compute; reflexivity).
-  right. exists 39, [99]. split; [reflexivity|]. split; [tauto|repeat constructor; discriminate].
+  - right. exists 39, [99]. split; [reflexivity|]. split; [tauto|repeat constructor; discriminate].
+  - exists html_hash_Style. repeat split; try (vm_compute; reflexivity); vm_compute; discriminate.
+  - intros k Hk Hk1. destruct (Z.eq_dec k 1) as [->|Hne]; [vm_compute in Hk1; discriminate|].
+    assert (0 <= k < 3) by (apply peekz_some in Hk; exact Hk).
+    assert (k = 0 \/ k = 2) as [-> | -> ] by lia; vm_compute in Hk; discriminate.
 Qed.
